@@ -230,6 +230,10 @@ pub struct Feat {
 pub struct Positions {
     pub rtl: bool,
     pub vertical: bool,
+    /// Lay out only the first `prefix` glyphs of the shaped run (a caller breaking a line inside
+    /// the run): attachments may then point past the end of what is laid out.
+    #[serde(default, skip_serializing_if = "Option::is_none")]
+    pub prefix: Option<usize>,
 }
 
 #[derive(Serialize, Deserialize, Clone, Debug, PartialEq, Eq)]
